@@ -574,19 +574,58 @@ NULLARY_OPS = ["keys", "okeys", "names", "syms", "forin", "entries", "gpo", "ie"
 PROTO_OPS = ["spo", "ospo"]
 PRIMS = {"gpo", "spo", "ie", "pe", "gopd", "def", "has", "rget", "rset", "del", "keys"}
 
-# per target kind: restrictions of the alphabets that remain because the defect behind them STILL reproduces on /repo HEAD
-# (failing inputs in design/C11.md §4; all are defects of the target's own entry points, not of proxy.go)
-KIND_CFG = {
+# Restrictions of the alphabets that exist ONLY while a defect of the target's own entry points (not of proxy.go) still
+# reproduces.  Each has a probe history that is run first on every run: if the probe still mismatches, the finding is
+# reported (KNOWN-FINDING while listed in known_findings.d/C11.json) and the restriction stays for this run; if the probe
+# passes (the defect is repaired in the tree under test) the restriction is lifted automatically.
+PROBES = [
+    # (restriction, probe history, signature)
+    ("margs", "Q margs 1 J seal;isSealed",
+     "C11/lockstep-probe: mapped arguments object: key iterator drops the attributes of mapped properties (Object.isSealed false after Object.seal)"),
+    ("margs", "Q margs 1 J odef/i0/-,-,0,-,-,-;okeys",
+     "C11/lockstep-probe: mapped arguments object: Object.keys lists a mapped property redefined as non-enumerable"),
+    ("arrlen", "Q arr 1 J def/length/i1,0,0,0,-,-;sset/length/N",
+     "C11/lockstep-probe: array: assigning an invalid length to a non-writable length throws RangeError instead of failing as a non-writable property"),
+    ("fnlazy", "Q fnlazy 1 J ldel/x;odef/zz/-,0,-,-,-,-",
+     "C11/lockstep-probe: function: position of the lazily created 'prototype' among the own keys depends on the access history"),
+]
+ACTIVE = {"margs", "arrlen", "fnlazy"}      # recomputed by run_probes() on every run
+
+KIND_CFG_ALL = {
     # String object: JSON.stringify depends on the [[StringData]] slot, which a proxy does not have (spec-mandated difference).
-    # (The Idx/Str entry-point disagreement of stringObject is repaired: 26a3635 -- its restrictions are gone.)
     "str": {"drop": ["json"]},
-    # mapped arguments object: seal + foreign-receiver set unseals; enumerable:false redefinition ignored by Object.keys
+}
+KIND_CFG_RESTRICTED = {
+    # mapped arguments object: seal / freeze / enumerable:false are not reflected by the key iterator and Object.keys
     "margs": {"descs": VALUE_DESCS, "drop": ["freeze", "seal", "isFrozen", "isSealed"]},
 }
+
+def kind_cfg(kind):
+    if kind in KIND_CFG_RESTRICTED and kind in ACTIVE:
+        return KIND_CFG_RESTRICTED[kind]
+    return KIND_CFG_ALL.get(kind, {})
+
+def run_probes(ctx, harness):
+    ACTIVE.clear()
+    lines = [p[1] for p in PROBES]
+    rc, out, err = ctx.run_lines([harness], lines, timeout=300)
+    res = {}
+    for (restr, line, sig), o in zip(PROBES, out + ["?"] * (len(lines) - len(out))):
+        ctx.count(1)
+        if o.startswith("OK "):
+            res[sig] = "repaired"
+            continue
+        res[sig] = o[:160]
+        ACTIVE.add(restr)
+        ctx.violation(sig, "%s -> %s (a defect of the target's own entry points; the generator avoids its trigger while it reproduces)" % (line, o[:200]),
+                      {"kind": "history", "ops": [line], "observed": o, "expected": "OK (every result and the final state identical)"})
+    ctx.stats["lockstep_probes"] = res
+    ctx.stats["lockstep_active_restrictions"] = sorted(ACTIVE)
+
 KIND_KEYS["uacc"] = ["q", "x", "zz"]
 
 def gen_op(rng, kind):
-    cfg = KIND_CFG.get(kind, {})
+    cfg = kind_cfg(kind)
     for _ in range(50):
         r = rng.random()
         k = rng.choice(KIND_KEYS[kind])
@@ -594,7 +633,7 @@ def gen_op(rng, kind):
             op = "%s/%s" % (rng.choice(KEY_OPS), k)
         elif r < 0.52:
             vals = SEQ_VALS
-            if k == "length" and kind in ("arr", "sparse"):
+            if k == "length" and kind in ("arr", "sparse") and "arrlen" in ACTIVE:
                 # an invalid array length on a non-writable `length` throws RangeError instead of failing with false/TypeError
                 # (array.go validates the value before looking at writability) -- not proxy.go's business
                 vals = ["i0", "i1", "i2", "i7"]
@@ -629,7 +668,7 @@ def gen_seqs(ctx):
                 for _ in range(per):
                     n = ctx.rng.randint(3, 12 if thorough else 9)
                     ops = [gen_op(ctx.rng, kind) for _ in range(n)]
-                    lines.append("Q %s %d %s %s" % (kind, layers, hk, ";".join(ops)))
+                    lines.append("Q %s %d %s %s" % ("fnlazy" if kind == "fn" and "fnlazy" not in ACTIVE else kind, layers, hk, ";".join(ops)))
     return lines
 
 def corpus_lines(modes=("Q",)):
@@ -773,6 +812,7 @@ def seq_signature(line, out):
     return None
 
 def lockstep(ctx, harness, model):
+    run_probes(ctx, harness)
     lines = [l for l in corpus_lines() if l.split()[1] != "keylie"] + gen_seqs(ctx)
     for kind in KIND_KEYS:
         for hk in "JG":
